@@ -1,3 +1,29 @@
-/- C04 — property theorems over Qfx.Model.Session (placeholder being filled; see checklist at the end) -/
+/- C04 — gap recovery. First theorems (decision logic of processReject); more in progress (DESIGN §5 C04). -/
 import Qfx.Spec.Session
-open Qfx Qfx.Sess Qfx.SessSpec
+open Qfx Qfx.Sess
+
+/-- while recovering (also with a test request pending on top, `lookThroughPending`), a too-high message is stashed in the
+    current recovery state and NO ResendRequest is created: the session is returned untouched -/
+theorem C04_no_second_request_while_recovering (s : Sess) (m : InMsg) (n e : Int) (st : List (Int × InMsg)) (c f : Int)
+    (h : curResend s = some (st, c, f)) :
+    processReject s m (.tooHigh n e) = (s, .resend (stashInsert st n m) c f) := by
+  simp [processReject, h]
+
+/-- outside recovery a too-high message creates the recovery state with the message kept and the request
+    `[expected, received-1]` handed to `sendResendRequest` -/
+theorem C04_first_request (s : Sess) (m : InMsg) (n e : Int) (h : curResend s = none) :
+    processReject s m (.tooHigh n e) =
+      ((sendResendRequest s e (n - 1)).1, .resend (stashInsert [] n m) (sendResendRequest s e (n - 1)).2.1 (sendResendRequest s e (n - 1)).2.2) := by
+  simp [processReject, h]
+
+/-- the request's end: chunk end when a smaller chunk is configured, "infinity" (0 / 999999) otherwise; the whole gap's end is remembered -/
+theorem C04_request_range (s : Sess) (b e : Int) :
+    (sendResendRequest s b e).2.2 = e ∧
+    (sendResendRequest s b e).2.1 = (if (if s.cfg.chunk != 0 then b + s.cfg.chunk - 1 else e) < e then (if s.cfg.chunk != 0 then b + s.cfg.chunk - 1 else e) else 0) := by
+  unfold sendResendRequest
+  simp only []
+  split <;> split <;> simp_all
+
+/-- the stash keeps the early message under its number -/
+theorem C04_stash_has (st : List (Int × InMsg)) (n : Int) (m : InMsg) : (stashInsert st n m).find? (·.1 == n) = some (n, m) := by
+  simp [stashInsert]
